@@ -433,7 +433,7 @@ def run():
     return chk.finish(proof, rule='distinct (op, case id); zero shift is counted trivial',
                       extra={'direct_oracles_evaluated': n_or, 'exact_cases': len(cases), 'real_objects': len(ocases)},
                       uncovered=['floating-point rounding (bounded a posteriori on the sampled runs only)',
-                                 'the spline interpolates the old nodal values (C08); hypothesis of c11_zero_speed_id',
+                                 'a whole-vector statement for shifts by uniform cells: false on clamped spaces (the Greville points next to the ends are off the lattice); the per-node statement is proved (c11_interp_then_foot_on_node), zero speed is composed with C08 (c11_interp_then_zero_speed_id)',
                                  'grid-level step: the parallel gradient at the same global position is used as speed (C05, defects 9.4 repaired)',
                                  'accuracy of the scheme (upstream tolerance tests)'])
 
